@@ -116,6 +116,6 @@ pub trait IVP {
     /// where `dim` is the length of `y`. The user can fill the matrix via Index/IndexMut,
     /// e.g., `m[(row, col)] = value`.
     fn mass(&self, m: &mut Matrix) {
-        Matrix::identity(m.nrows());
+        *m = Matrix::identity(m.nrows());
     }
 }
